@@ -564,3 +564,79 @@ package rib
 //@ assigns r.r.Afts.LabelEntry[boxed(aft.UnionUint32, label)]
 //@ props C01 C12:safety
 
+
+// ---- resolution and deletion checks (C02, C03) ----
+//@ pred holdersWF(r *RIB) = r != nil && r.defaultName in dom(r.niRIB) && (forall k in dom(r.niRIB) :: holderWF(r.niRIB[k]))
+// candWF: the candidate built by candidateRIB keys every list entry by the entry's own key leaf.
+//@ pred candWF(C *aft.Afts) = (forall k in dom(C.NextHopGroup) :: C.NextHopGroup[k] != nil && (forall i in dom(C.NextHopGroup[k].NextHop) :: C.NextHopGroup[k].NextHop[i] != nil && C.NextHopGroup[k].NextHop[i].GetIndex() == i))
+//@   && (forall k in dom(C.NextHop) :: C.NextHop[k] != nil && C.NextHop[k].GetIndex() == k)
+//@   && (forall k in dom(C.NextHopGroup) :: C.NextHopGroup[k].GetId() == k)
+//@   && (forall k in dom(C.Ipv4Entry) :: C.Ipv4Entry[k] != nil) && (forall k in dom(C.Ipv6Entry) :: C.Ipv6Entry[k] != nil) && (forall k in dom(C.LabelEntry) :: C.LabelEntry[k] != nil)
+//@   && dom(C.MacEntry) == emptyset(string) && dom(C.PolicyForwardingEntry) == emptyset(uint64)
+// homeNI: references are resolved in the named instance, or the default one when none is named.
+//@ pred homeNI(r *RIB, ni string) = ite(ni == "", r.defaultName, ni)
+//@ pred nhInstalled(h *RIBHolder, i uint64) = i in dom(h.r.Afts.NextHop) && h.r.Afts.NextHop[i] != nil
+//@ pred nhgInstalled(h *RIBHolder, g uint64) = g in dom(h.r.Afts.NextHopGroup) && h.r.Afts.NextHopGroup[g] != nil
+// resolvableSpec for a group: every next-hop it lists is installed in the same instance (the backup group is ignored).
+//@ pred groupResolvable(h *RIBHolder, g *aft.Afts_NextHopGroup) = forall i in dom(g.NextHop) :: nhInstalled(h, i)
+// resolvableSpec for a top-level entry: its group is installed in the instance it names, or its own.
+//@ pred entryResolvable(r *RIB, h *RIBHolder, gni string, g uint64) = ite(gni == "", nhgInstalled(h, g), gni in dom(r.niRIB) && nhgInstalled(r.niRIB[gni], g))
+
+//@ inline RIB.canResolve$1
+//@ unit checkCandidate
+//@ requires caft != nil
+//@ ensures[ok] result0 == nil <==> (len(caft.MacEntry) == 0 && len(caft.PolicyForwardingEntry) == 0
+//@   && len(caft.Ipv6Entry) + len(caft.LabelEntry) + len(caft.Ipv4Entry) + len(caft.NextHopGroup) + len(caft.NextHop) == 1)
+//@ assigns nothing
+//@ props C02 C03 C12:safety
+
+//@ unit RIB.canResolve
+//@ requires holdersWF(r) && candidate != nil && candidate.Afts != nil && candWF(candidate.Afts)
+//@ ensures[nh] forall k: uint64 :: candOnly_nh(candidate.Afts, k) ==> (k == 0 ==> result1 != nil) && (k != 0 ==> result1 == nil && result0)
+//@ ensures[unknown-ni] !(homeNI(r, netInst) in dom(r.niRIB)) && dom(candidate.Afts.NextHop) == emptyset(uint64) ==> result1 != nil && !result0
+//@ ensures[nhg] forall k: uint64 :: candOnly_nhg(candidate.Afts, k) && homeNI(r, netInst) in dom(r.niRIB) && k != 0
+//@   && dom(candidate.Afts.NextHopGroup[k].NextHop) != emptyset(uint64) && !(0 in dom(candidate.Afts.NextHopGroup[k].NextHop))
+//@   ==> result1 == nil && (result0 <==> groupResolvable(r.niRIB[homeNI(r, netInst)], candidate.Afts.NextHopGroup[k]))
+//@ ensures[nhg-fatal] forall k: uint64 :: candOnly_nhg(candidate.Afts, k) && homeNI(r, netInst) in dom(r.niRIB)
+//@   && (k == 0 || dom(candidate.Afts.NextHopGroup[k].NextHop) == emptyset(uint64)) ==> result1 != nil && !result0
+//@ ensures[v4] forall k: string :: candOnly_v4(candidate.Afts, k) && homeNI(r, netInst) in dom(r.niRIB) && candidate.Afts.Ipv4Entry[k].GetNextHopGroup() != 0
+//@   && (candidate.Afts.Ipv4Entry[k].GetNextHopGroupNetworkInstance() == "" || candidate.Afts.Ipv4Entry[k].GetNextHopGroupNetworkInstance() in dom(r.niRIB))
+//@   ==> result1 == nil && (result0 <==> entryResolvable(r, r.niRIB[homeNI(r, netInst)], candidate.Afts.Ipv4Entry[k].GetNextHopGroupNetworkInstance(), candidate.Afts.Ipv4Entry[k].GetNextHopGroup()))
+//@ ensures[v4-fatal] forall k: string :: candOnly_v4(candidate.Afts, k) && homeNI(r, netInst) in dom(r.niRIB) && (candidate.Afts.Ipv4Entry[k].GetNextHopGroup() == 0
+//@   || (candidate.Afts.Ipv4Entry[k].GetNextHopGroupNetworkInstance() != "" && !(candidate.Afts.Ipv4Entry[k].GetNextHopGroupNetworkInstance() in dom(r.niRIB)))) ==> result1 != nil && !result0
+//@ ensures[v6] forall k: string :: candOnly_v6(candidate.Afts, k) && homeNI(r, netInst) in dom(r.niRIB) && candidate.Afts.Ipv6Entry[k].GetNextHopGroup() != 0
+//@   && (candidate.Afts.Ipv6Entry[k].GetNextHopGroupNetworkInstance() == "" || candidate.Afts.Ipv6Entry[k].GetNextHopGroupNetworkInstance() in dom(r.niRIB))
+//@   ==> result1 == nil && (result0 <==> entryResolvable(r, r.niRIB[homeNI(r, netInst)], candidate.Afts.Ipv6Entry[k].GetNextHopGroupNetworkInstance(), candidate.Afts.Ipv6Entry[k].GetNextHopGroup()))
+//@ ensures[v6-fatal] forall k: string :: candOnly_v6(candidate.Afts, k) && homeNI(r, netInst) in dom(r.niRIB) && (candidate.Afts.Ipv6Entry[k].GetNextHopGroup() == 0
+//@   || (candidate.Afts.Ipv6Entry[k].GetNextHopGroupNetworkInstance() != "" && !(candidate.Afts.Ipv6Entry[k].GetNextHopGroupNetworkInstance() in dom(r.niRIB)))) ==> result1 != nil && !result0
+//@ ensures[mpls] forall k: aft.Afts_LabelEntry_Label_Union :: candOnly_mpls(candidate.Afts, k) && homeNI(r, netInst) in dom(r.niRIB) && candidate.Afts.LabelEntry[k].GetNextHopGroup() != 0
+//@   && (candidate.Afts.LabelEntry[k].GetNextHopGroupNetworkInstance() == "" || candidate.Afts.LabelEntry[k].GetNextHopGroupNetworkInstance() in dom(r.niRIB))
+//@   ==> result1 == nil && (result0 <==> entryResolvable(r, r.niRIB[homeNI(r, netInst)], candidate.Afts.LabelEntry[k].GetNextHopGroupNetworkInstance(), candidate.Afts.LabelEntry[k].GetNextHopGroup()))
+//@ ensures[mpls-fatal] forall k: aft.Afts_LabelEntry_Label_Union :: candOnly_mpls(candidate.Afts, k) && homeNI(r, netInst) in dom(r.niRIB) && (candidate.Afts.LabelEntry[k].GetNextHopGroup() == 0
+//@   || (candidate.Afts.LabelEntry[k].GetNextHopGroupNetworkInstance() != "" && !(candidate.Afts.LabelEntry[k].GetNextHopGroupNetworkInstance() in dom(r.niRIB)))) ==> result1 != nil && !result0
+//@ ensures[err-means-no] result1 != nil ==> !result0
+//@ loop 1 at "range g.NextHop" invariant forall j in visited :: j in dom(g.NextHop) ==> nhInstalled(niRIB, j)
+//@ loop 1 invariant holdersWF(r) && candWF(caft) && g != nil && niRIB != nil && holderWF(niRIB) && !(0 in visited)
+//@ assigns nothing
+//@ props C02 C12:safety
+
+//@ unit RIB.canDelete
+//@ requires holdersWF(r) && deletionCandidate != nil && deletionCandidate.Afts != nil && candWF(deletionCandidate.Afts)
+//@ ensures[unknown-ni] !(homeNI(r, netInst) in dom(r.niRIB)) ==> result1 != nil && !result0
+//@ ensures[v4-always] forall k: string :: candOnly_v4(deletionCandidate.Afts, k) && homeNI(r, netInst) in dom(r.niRIB) ==> result1 == nil && result0
+//@ ensures[v6-always] forall k: string :: candOnly_v6(deletionCandidate.Afts, k) && homeNI(r, netInst) in dom(r.niRIB) ==> result1 == nil && result0
+//@ ensures[mpls-always] forall k: aft.Afts_LabelEntry_Label_Union :: candOnly_mpls(deletionCandidate.Afts, k) && homeNI(r, netInst) in dom(r.niRIB) ==> result1 == nil && result0
+//@ ensures[nhg-exact] forall k: uint64 :: candOnly_nhg(deletionCandidate.Afts, k) && homeNI(r, netInst) in dom(r.niRIB) && k != 0 ==> result1 == nil
+//@   && (result0 <==> (!(k in dom(r.niRIB[homeNI(r, netInst)].r.Afts.NextHopGroup)) || r.niRIB[homeNI(r, netInst)].refCounts.NextHopGroup[k] == 0))
+//@ ensures[nh-exact] forall k: uint64 :: candOnly_nh(deletionCandidate.Afts, k) && homeNI(r, netInst) in dom(r.niRIB) && k != 0 ==> result1 == nil
+//@   && (result0 <==> (!(k in dom(r.niRIB[homeNI(r, netInst)].r.Afts.NextHop)) || r.niRIB[homeNI(r, netInst)].refCounts.NextHop[k] == 0))
+//@ ensures[zero-id] (candOnly_nhg(deletionCandidate.Afts, 0) || candOnly_nh(deletionCandidate.Afts, 0)) && homeNI(r, netInst) in dom(r.niRIB) ==> result1 != nil && !result0
+//@ ensures[err-means-no] result1 != nil ==> !result0
+//@ assigns nothing
+//@ props C03 C12:safety
+
+//@ unit RIB.checkFn
+//@ requires holdersWF(r) && candidate != nil && candidate.Afts != nil && candWF(candidate.Afts)
+//@ ensures[unknown-op] t != constants.Add && t != constants.Delete ==> result1 != nil && !result0
+//@ assigns nothing
+//@ props C02 C03 C12:safety
